@@ -167,6 +167,11 @@ impl Mapper {
     }
   }
   
+  /// Whether `k` is currently held on the output side (passed through or pressed by a mapping).
+  pub fn is_output_key_held(self: &Mapper, k: &KeyCode) -> bool {
+    self.state.pass_through_keys.contains(k) || self.state.mapped_output_keys.contains(k)
+  }
+  
   pub fn release_all(self: &mut Mapper) -> Vec<Event> {
     let to_release = self.state.input_pressed_keys.clone();
     
